@@ -365,6 +365,11 @@ class Check:
         self.known = [f for f in kf.get("findings", []) if f["property"] == pid]
 
     # -- coverage bookkeeping
+    def phase(self, name):
+        now = time.time()
+        self.extra.setdefault("phases_s", {})[name] = round(now - getattr(self, "_pt", self.t0), 1)
+        self._pt = now
+
     def add_tlc(self, name, r):
         self.states += r.distinct
         self.transitions += r.states
@@ -388,7 +393,7 @@ class Check:
             if re.search(f["signature"], signature):
                 self.known_hit.setdefault(f["id"], dict(f=f, n=0, example=description))["n"] += 1
                 return False
-        if len(self.violations) < 50:
+        if sum(1 for v in self.violations if v[0] == signature and v[2] is not None) < 3:
             self.violations.append((signature, description, replay))
         else:
             self.violations.append((signature, None, None))
